@@ -740,68 +740,93 @@ Section ModelsProofs.
 
   (* ---- singleflight ------------------------------------------------------------------------ *)
 
+  Variable fkey : bytes -> bytes.
+
   Notation cstate := (cstate body).
-  Notation cstep := (cstep body).
+  Notation cstep := (cstep body fkey).
   Notation flight := (flight body).
 
   Lemma fresh_enough_refl (x : option model) : fresh_enough body x x = true.
   Proof. destruct x as [[i b]|]; simpl; [|reflexivity]. rewrite bltb_irrefl. reflexivity. Qed.
 
+  (* request store of a waiter / of a completed request, store its serving lookup was made for *)
+  Definition w_store (w : (N * bytes) * option model * bool) : bytes := snd (fst (fst w)).
+
   Definition cinv (st : cstate) : Prop :=
     (forall d, In d (c_done body st) -> snd d = true \/ fresh_enough body (snd (fst (fst d))) (snd (fst d)) = true) /\
-    (forall f, In f (c_flights body st) -> forall w, In w (fl_waiters body f) -> snd w = false -> snd (fst w) = fl_value body f).
+    (forall f, In f (c_flights body st) -> forall w, In w (fl_waiters body f) -> snd w = false -> snd (fst w) = fl_value body f) /\
+    (* every flight is filed under the key of the store it queries, and every request waiting on
+       it has that key *)
+    (forall f, In f (c_flights body st) ->
+       fl_key body f = fkey (fl_store body f) /\ forall w, In w (fl_waiters body f) -> fkey (w_store w) = fl_key body f) /\
+    (forall d, In d (c_done body st) -> fkey (snd (fst (fst (fst (fst d))))) = fkey (snd (fst (fst (fst d))))).
 
-  Lemma find_flight_In s fs (f : flight) : find_flight body s fs = Some f -> In f fs.
+  Lemma find_flight_In k fs (f : flight) : find_flight body k fs = Some f -> In f fs /\ fl_key body f = k.
   Proof.
     induction fs as [|g fs IH]; simpl; [discriminate|].
-    destruct (beqb (fl_store body g) s); intro H; [inversion H; left; reflexivity | right; apply IH; exact H].
+    destruct (beqb (fl_key body g) k) eqn:E; intro H.
+    - inversion H; subst. apply beqb_eq in E. split; [left; reflexivity | exact E].
+    - destruct (IH H). split; [right; assumption | assumption].
   Qed.
 
-  Lemma remove_flight_In s fs (f : flight) : In f (remove_flight body s fs) -> In f fs.
+  Lemma remove_flight_In k fs (f : flight) : In f (remove_flight body k fs) -> In f fs.
   Proof.
     induction fs as [|g fs IH]; simpl; [tauto|].
-    destruct (beqb (fl_store body g) s); intro H; [right; exact H|].
+    destruct (beqb (fl_key body g) k); intro H; [right; exact H|].
     destruct H as [H | H]; [left; exact H | right; apply IH; exact H].
   Qed.
 
   Lemma replace_flight_In (f' : flight) fs f : In f (replace_flight body f' fs) -> f = f' \/ In f fs.
   Proof.
     induction fs as [|g fs IH]; simpl; [tauto|].
-    destruct (beqb (fl_store body g) (fl_store body f')); intros [H | H]; auto.
+    destruct (beqb (fl_key body g) (fl_key body f')); intros [H | H]; auto.
     destruct (IH H); auto.
   Qed.
 
   Lemma cstep_inv st e : cinv st -> cinv (cstep st e).
   Proof.
-    intros [Hd Hf]. destruct e as [s m | r s | s]; simpl.
-    - split; assumption.
-    - destruct (find_flight body s (c_flights body st)) as [f|] eqn:Ef; simpl; split; try assumption.
-      + intros g Hg w Hw Hj. apply replace_flight_In in Hg as [-> | Hg].
-        * simpl in *. destruct Hw as [<- | Hw]; [discriminate|].
-          apply (Hf f (find_flight_In _ _ _ Ef) w Hw Hj).
-        * apply (Hf g Hg w Hw Hj).
-      + intros g [<- | Hg] w Hw Hj.
-        * simpl in *. destruct Hw as [<- | []]. reflexivity.
-        * apply (Hf g Hg w Hw Hj).
-    - destruct (find_flight body s (c_flights body st)) as [f|] eqn:Ef; simpl; [|split; assumption].
-      split.
-      + intros d Hin. apply in_app_or in Hin as [Hin | Hin]; [|apply Hd; exact Hin].
-        apply in_map_iff in Hin as [w [<- Hw]]. simpl.
+    intros (Hd & Hf & Hk & Hs). destruct e as [s m | r s | s]; simpl.
+    - repeat split; try assumption; apply Hk; assumption.
+    - destruct (find_flight body (fkey s) (c_flights body st)) as [f|] eqn:Ef; simpl.
+      + destruct (find_flight_In _ _ _ Ef) as [Hin Hkey].
+        split; [exact Hd|]. split; [|split; [|exact Hs]].
+        * intros g Hg w Hw Hj. apply replace_flight_In in Hg as [-> | Hg].
+          -- simpl in *. destruct Hw as [<- | Hw]; [discriminate|]. apply (Hf f Hin w Hw Hj).
+          -- apply (Hf g Hg w Hw Hj).
+        * intros g Hg. apply replace_flight_In in Hg as [-> | Hg]; [|apply Hk; exact Hg].
+          simpl. split; [apply (proj1 (Hk f Hin))|].
+          intros w [<- | Hw]; [unfold w_store; simpl; symmetry; exact Hkey | apply (proj2 (Hk f Hin)); exact Hw].
+      + split; [exact Hd|]. split; [|split; [|exact Hs]].
+        * intros g [<- | Hg] w Hw Hj.
+          -- simpl in *. destruct Hw as [<- | []]. reflexivity.
+          -- apply (Hf g Hg w Hw Hj).
+        * intros g [<- | Hg]; [|apply Hk; exact Hg].
+          simpl. split; [reflexivity|]. intros w [<- | []]. reflexivity.
+    - destruct (find_flight body (fkey s) (c_flights body st)) as [f|] eqn:Ef; simpl;
+        [|repeat split; try assumption; apply Hk; assumption].
+      destruct (find_flight_In _ _ _ Ef) as [Hin Hkey].
+      split; [|split; [|split]].
+      + intros d Hi. apply in_app_or in Hi as [Hi | Hi]; [|apply Hd; exact Hi].
+        apply in_map_iff in Hi as [w [<- Hw]]. simpl.
         destruct (snd w) eqn:Ej; [left; reflexivity|]. right.
-        rewrite (Hf f (find_flight_In _ _ _ Ef) w Hw Ej). apply fresh_enough_refl.
+        rewrite (Hf f Hin w Hw Ej). apply fresh_enough_refl.
       + intros g Hg. apply Hf. apply (remove_flight_In _ _ _ Hg).
+      + intros g Hg. apply Hk. apply (remove_flight_In _ _ _ Hg).
+      + intros d Hi. apply in_app_or in Hi as [Hi | Hi]; [|apply Hs; exact Hi].
+        apply in_map_iff in Hi as [w [<- Hw]]. simpl.
+        rewrite <- (proj1 (Hk f Hin)). apply (proj2 (Hk f Hin) w Hw).
   Qed.
 
-  Lemma crun_inv h : cinv (crun body h).
+  Lemma crun_inv h : cinv (crun body fkey h).
   Proof.
     unfold crun. assert (G : forall st, cinv st -> cinv (fold_left cstep h st)).
     { induction h as [|e h IH]; intros st Hs; [exact Hs|]. simpl. apply IH. apply cstep_inv. exact Hs. }
-    apply G. split; [intros d [] | intros f []].
+    apply G. split; [intros d [] |]. split; [intros f [] |]. split; [intros f [] | intros d []].
   Qed.
 
   (* a request that issues its own lookup (does not join a call in flight) is never served a
      model older than the latest one at its start *)
-  Theorem leaders_served_latest h : leaders_fresh body (crun body h) = true.
+  Theorem leaders_served_latest h : leaders_fresh body (crun body fkey h) = true.
   Proof.
     unfold leaders_fresh. apply forallb_forall. intros d Hd.
     destruct (proj1 (crun_inv h) d Hd) as [Hj | Hfresh].
@@ -809,14 +834,23 @@ Section ModelsProofs.
     - rewrite Hfresh. apply orb_true_r.
   Qed.
 
-  Theorem no_join_all_fresh h : some_joined body (crun body h) = false -> all_fresh body (crun body h) = true.
+  Theorem no_join_all_fresh h : some_joined body (crun body fkey h) = false -> all_fresh body (crun body fkey h) = true.
   Proof.
     intro Hn. pose proof (leaders_served_latest h) as Hl. unfold all_fresh, leaders_fresh, some_joined in *.
     rewrite forallb_forall in *. intros d Hd. specialize (Hl d Hd).
     destruct (snd d) eqn:Ej; [|exact Hl].
-    exfalso. assert (Hex : existsb (fun d => snd d) (c_done body (crun body h)) = true)
+    exfalso. assert (Hex : existsb (fun d => snd d) (c_done body (crun body fkey h)) = true)
       by (apply existsb_exists; exists d; auto).
     rewrite Hex in Hn. discriminate.
+  Qed.
+
+  (* isolation of the lookup: when the key determines the store, every request - leader or
+     follower, in every interleaving - is served by a lookup that was made for ITS store *)
+  Theorem lookup_isolated h :
+    (forall a b, fkey a = fkey b -> a = b) -> all_own_store body (crun body fkey h) = true.
+  Proof.
+    intro Inj. unfold all_own_store. apply forallb_forall. intros d Hd.
+    apply beqb_eq. apply Inj. apply (proj2 (proj2 (proj2 (crun_inv h))) d Hd).
   Qed.
 End ModelsProofs.
 
@@ -871,7 +905,29 @@ Proof.
 Qed.
 
 Lemma c17_concurrent_partial :
-  forall (body : Type) (h : list (cev body)),
-    leaders_fresh body (crun body h) = true /\
-    (some_joined body (crun body h) = false -> all_fresh body (crun body h) = true).
-Proof. intros body h. exact (conj (leaders_served_latest body h) (no_join_all_fresh body h)). Qed.
+  forall (body : Type) (fkey : bytes -> bytes) (h : list (cev body)),
+    leaders_fresh body (crun body fkey h) = true /\
+    (some_joined body (crun body fkey h) = false -> all_fresh body (crun body fkey h) = true).
+Proof. intros body fkey h. exact (conj (leaders_served_latest body fkey h) (no_join_all_fresh body fkey h)). Qed.
+
+(* the key as coded determines the store *)
+Lemma lookup_key_inj a b : lookup_key a = lookup_key b -> a = b.
+Proof. unfold lookup_key. apply app_inv_head. Qed.
+
+Lemma c17_latest_lookup_isolated :
+  forall (body : Type) (h : list (cev body)), all_own_store body (crun body lookup_key h) = true.
+Proof. intros body h. apply lookup_isolated. exact lookup_key_inj. Qed.
+
+(* with a key that omits the store id, a request for store B joins the lookup in flight for
+   store A and is served A's latest model *)
+Lemma c17_latest_lookup_isolated_needs_store_in_key :
+  exists h, t_all_own_store (t_crun_no_store h) = false /\ t_all_own_store (t_crun h) = true.
+Proof.
+  exists [CWrite tbody (ex_id 49) (ex_id 65, ex_body 1);
+          CWrite tbody (ex_id 50) (ex_id 66, ex_body 2);
+          CBegin tbody 1 (ex_id 49);
+          CBegin tbody 2 (ex_id 50);
+          CEnd tbody (ex_id 49);
+          CEnd tbody (ex_id 50)].
+  vm_compute. split; reflexivity.
+Qed.
